@@ -234,6 +234,57 @@ def run_fresh_state(rep, fx, rid):
     ok = len(parsed) == 1 and len(fw) == 1 and not any(P.can_reach((parsed[0][1], 0), (r, 'term'), avoid_pos=fw) for r in hp.return_blocks())
     rep.check(ok, rid, 'handle_received_packet/parsed-is-processed', 'Ok(message) => handle_parsed_message(message) on every path',
               'handle_received_packet does not hand every successfully parsed RTPS message to handle_parsed_message: received traffic is silently discarded', hp.where())
+    # which datagrams are parsed at all: at least a header long and starting with the magic "RTPS" (the byte-string constants are in the fact file)
+    def nm_call(t, og_, bb):
+        cr = callee_res(t)
+        last = cr.rsplit('::', 1)[-1]
+        if last in ('eq', 'ne') and len(t['args']) == 2:
+            for a in t['args']:
+                v = og_.of_operand(a, bb, 'term')
+                for x in _consts(v):
+                    if len(x) > 3 and x[1] == 'ptr' and x[3] in (b'RTPS', b'RTPX'):
+                        return '%s:%s' % (last, x[3].decode().lower())
+        return None
+
+    def nm_discr(cond):
+        if cond[0] == 'bin' and cond[1] in ('Ge', 'Lt') and cond[3] == ('const', 'int', 4) and term_has(cond[2], lambda x: x[0] == 'call' and x[1].endswith('::len')):
+            return 'ge4' if cond[1] == 'Ge' else '!ge4'
+        return None
+    short = [(s_, t_, lab) for s_, t_, cond, lab in edges if cond[0] == 'bin' and cond[1] in ('Lt', 'Ge') and term_has(cond[2], lambda x: x[0] == 'call' and x[1].endswith('::len')) and
+             term_has(cond[3], lambda x: x[0] == 'const' and str(x[-1]).endswith('RTPS_MESSAGE_HEADER_SIZE'))]
+    parse = [bb for bb, t in hp.calls() if callee_res(t).endswith('Message::read_from_buffer')]
+    bad = []
+    if len(parse) != 1 or len(short) != 2:
+        bad.append('no length test against RTPS_MESSAGE_HEADER_SIZE in front of the parser')
+    else:
+        is_short = [(s_, t_) for s_, t_, lab in short if lab is (True if any(c[1] == 'Lt' for _, _, c, _ in edges if c[0] == 'bin' and term_has(c, lambda x: x[0] == 'const' and str(x[-1]).endswith('RTPS_MESSAGE_HEADER_SIZE'))) else False)]
+        long_enough = [(s_, t_) for s_, t_, lab in short if (s_, t_) not in is_short]
+        if any(P.can_reach((t_, 0), (parse[0], 'term')) for s_, t_ in is_short):
+            bad.append('a datagram shorter than the RTPS header reaches the parser')
+        T = boolform.table(hp, fx, nm_call, nm_discr, start=long_enough[0][1], stop_blocks={parse[0]: 'parse'})
+        if not any(a.endswith(':rtps') for a in T.atoms):
+            bad.append('no comparison with the magic b"RTPS" (tests found: %s)' % T.atoms)
+        else:
+            for vals in itertools.product((False, True), repeat=len(T.atoms)):
+                assign = dict(zip(T.atoms, vals))
+                tr = {}
+                for k, v in assign.items():
+                    if k.startswith('ne:'):
+                        tr[k[3:]] = not v
+                    elif k.startswith('eq:'):
+                        tr[k[3:]] = v
+                    elif k.startswith('!'):
+                        tr[k[1:]] = not v
+                    else:
+                        tr[k] = v
+                if tr.get('ge4') is False or (tr.get('rtps') and tr.get('rtpx')):
+                    continue            # cannot happen for a datagram that is a header long / two different magics at once
+                want = 'parse' if tr['rtps'] else None
+                got = T.eval(assign)
+                if got != want:
+                    bad.append('magic is RTPS=%s -> %s' % (tr['rtps'], 'parsed' if got == 'parse' else 'dropped'))
+    rep.check(not bad, rid, 'handle_received_packet/admission', 'parsed <=> at least a header long AND magic == b"RTPS"',
+              'handle_received_packet does not parse exactly the datagrams that are at least an RTPS header long and start with "RTPS" (%s)' % '; '.join(sorted(set(bad))[:2]), hp.where())
     pm = fx.find(MR + 'handle_parsed_message')
     rep.analysed(pm)
     og = Origins(pm, summaries=False)
@@ -286,3 +337,17 @@ def run_fresh_state(rep, fx, rid):
     missing = sorted(f for f in sticky if f not in cleared and f not in early)
     rep.check(len(sticky) >= 4 and not missing, rid, 'reset/covers-interpreter-state', '%d fields set by INFO_* submessages, all re-initialised per message' % len(sticky),
               'fields an INFO_* submessage sets are not re-initialised for the next datagram: %s (set by handle_interpreter_submessage: %s)' % (', '.join(missing) or '-', ', '.join(sorted(sticky))), rs.where())
+
+
+def _consts(t):
+    out = []
+
+    def rec(x):
+        if isinstance(x, tuple):
+            if x and x[0] == 'const':
+                out.append(x)
+                return
+            for y in x:
+                rec(y)
+    rec(t)
+    return out
